@@ -234,7 +234,56 @@ def r4a_unordered(ctx, only_fns=None, rule="R4a"):
             r.violate(key, "%s returns `%s`, filled by a %s (at %s), without sorting: element order varies from run to run" % (
                 f.id, f.local_name(v) or "_%d" % v, src, crate.span_str(span)))
     r.counts["returned_unordered_vectors"] = n
+    # a hash-ordered loop that fills a returned vector runs to exhaustion: a `break` (a cap on the number of results) keeps
+    # whichever elements the hash order visits first, and sorting afterwards does not bring the others back
+    from .r1e import natural_loops
+    for f in crate.real_fns():
+        if only_fns is not None and not any(f.root.endswith("::" + x) or f.id.endswith("::" + x) for x in only_fns):
+            continue
+        heads = [bb for bb, c in f.calls() if c.get("fn") == "std::iter::Iterator::next" and c["span"][4].startswith("desugar:ForLoop") and _is_s1(c.get("targs", []))]
+        if not heads:
+            continue
+        loops = natural_loops(f)
+        for hb in heads:
+            cands = [(h, body) for h, _l, body in loops if hb in body]
+            if not cands:
+                continue
+            h, body = min(cands, key=lambda x: len(x[1]))
+            nxt = f.blocks[hb]["t"][1].get("target")
+            fills = set()
+            for b in body:
+                t = f.blocks[b]["t"]
+                if t[0] == "call" and re.search(r"Vec::<T, A>::(push|extend|extend_from_slice)$", t[1].get("res") or "") and t[1]["args"]:
+                    v = _root_local(f, t[1]["args"][0])
+                    if v is not None and 0 in _moved_into(f, v):
+                        fills.add(v)
+            if not fills:
+                continue
+            early = [b for b in sorted(body) if b not in (hb, nxt) and any(s2 not in body and f.blocks[s2]["t"][0] != "unreachable" for s2 in f.succs(b))]
+            # leaving by `return` of something else (an error) is not a truncation of the vector: only exits that still reach a
+            # return of the vector count
+            early = [b for b in early if any(_reaches_block(f, s2, rb) for s2 in f.succs(b) if s2 not in body for rb in f.exits())]
+            key = "%s|%s|hash-ordered fill loop left early" % (rule, f.id)
+            if early:
+                r.violate(key, "%s leaves the loop over %s before it is exhausted (at block %d) while filling a vector it returns: "
+                               "which elements make it into the result depends on the hash order" % (
+                                   f.id, (f.blocks[hb]["t"][1].get("targs") or ["?"])[0][:60], early[0]))
+            else:
+                r.ok()
     return r
+
+
+def _reaches_block(f, a, b):
+    seen, st = {a}, [a]
+    while st:
+        x = st.pop()
+        if x == b:
+            return True
+        for s2 in f.succs(x):
+            if s2 not in seen:
+                seen.add(s2)
+                st.append(s2)
+    return False
 
 
 def _value_reaches(f, v, rb, avoid=frozenset()):
@@ -650,4 +699,103 @@ def r4f_no_prefix_adaptors(ctx):
             else:
                 r.violate(key, "%s uses `%s` over index records at %s: their order is analysis order" % (f.root.split("::")[-1], meth, crate.span_str(c["span"])))
     r.counts["prefix_adaptors_over_index_records"] = n  # expected 0; positive examples: seeded changes C01-l, C20-n
+    return r
+
+
+# ------------------------------------------------------------------------------------------------------------------ R4g
+NARROWING = r"::(filter|filter_map|skip|skip_while|take|take_while|step_by|flat_map|flatten|flat_map_iter|dedup\w*|retain|truncate|drain)(::<.*>)?$"
+UNBOUNDED = r"::(repeat|repeat_with|repeat_n|cycle|successors|from_fn)(::<.*>)?$"
+
+
+def _narrowed(crate, f, l, depth=0, seen=None):
+    """(element-dropping steps between the sources and local l, unbounded?): each step is named by where it happens, so two
+    sequences cut by the same step (two vectors filled under one condition of one loop) have the same history"""
+    seen = seen if seen is not None else set()
+    nar = set()
+    unb = False
+    st = [l]
+    while st and len(seen) < 120:
+        x = st.pop()
+        if x is None or x in seen:
+            continue
+        seen.add(x)
+        if "RangeFrom" in f.local_ty(x):
+            unb = True
+        for d in f.whole_defs(x):
+            if d[0] == "call":
+                c = d[2]
+                res = c.get("res") or c.get("fn") or ""
+                if re.search(NARROWING, res):
+                    nar.add(("step", f.id, d[1]))
+                if re.search(UNBOUNDED, res):
+                    unb = True
+                g = crate.fns.get(c.get("res")) if c.get("res_local") else None
+                if g is not None and depth < 2 and g is not f:
+                    n2, u2 = _narrowed(crate, g, 0, depth + 1)   # what the callee hands back
+                    nar |= n2
+                    unb = unb or u2
+                st += [op_local(a) for a in c["args"][:2]]
+            elif d[0] == "assign":
+                rv = d[3]
+                if rv[0] == "use":
+                    st.append(op_local(rv[1]))
+                elif rv[0] == "ref":
+                    st.append(place_local(rv[2]))
+                elif rv[0] in ("cast", "un"):
+                    st.append(op_local(rv[-1]))
+                elif rv[0] == "agg":
+                    st += [op_local(o) for o in rv[2]]
+        # a vector filled by pushes: narrowed when some trip round the filling loop makes no push
+        if re.search(r"\bVec<", f.local_ty(x)) and not f.local_ty(x).startswith("&"):
+            nar |= {("loop", f.id, h) for h in _conditionally_filled(f, x)}
+    return nar, unb
+
+
+def _conditionally_filled(f, v):
+    from .r1e import natural_loops, _avoiding_path
+    pushes = set()
+    for b, c in f.calls():
+        if re.search(r"Vec::<T, A>::push$|Vec::<T, A>::insert$", c.get("res") or ""):
+            a0 = op_local(c["args"][0]) if c["args"] else None
+            if a0 is None:
+                continue
+            for d in f.whole_defs(a0):
+                if d[0] == "assign" and d[3][0] == "ref" and place_local(d[3][2]) == v and not place_projs(d[3][2]):
+                    pushes.add(b)
+    out = set()
+    if not pushes:
+        return out
+    for h, latches, body in natural_loops(f):
+        inl = pushes & set(body)
+        if inl and _avoiding_path(f, h, set(latches), body, inl) is not None:
+            out.add(h)
+    return out
+
+
+def r4g_zip_sides_agree(ctx):
+    r = Result("R4g", "the two sequences handed to a `zip` have the same element-dropping history: when one side went through a "
+                      "filter / filter_map / skip / take / a conditionally pushing loop and the other did not, the pairs are "
+                      "shifted after the first dropped element and the tail is cut off silently -- which file, name or span is "
+                      "attached to which then depends on what was dropped. An endless side (a `n..` range, repeat) pairs with "
+                      "anything")
+    crate = ctx.bin
+    n = 0
+    for f in crate.real_fns():
+        if "_serde::" in f.id or f.id.startswith("<"):
+            continue
+        for b, c in f.calls():
+            res = c.get("res") or c.get("fn") or ""
+            if not re.search(r"(Iterator|IndexedParallelIterator|iter)::zip(::<.*>)?$", res) or len(c["args"]) < 2:
+                continue
+            if c["span"][4].startswith("macro:"):
+                continue
+            n += 1
+            a, bside = (_narrowed(crate, f, op_local(o)) for o in c["args"][:2])
+            key = "R4g|%s|zip of a narrowed and a full sequence" % f.id
+            if a[0] != bside[0] and not (a[1] or bside[1]):
+                r.violate(key, "zip at %s in %s pairs a sequence that lost elements on the way (filter / skip / conditional push) "
+                               "with one that did not" % (crate.span_str(c["span"]), f.id))
+            else:
+                r.ok(sample={"zip in": f.id.split("::")[-1], "dropping steps per side": [len(a[0]), len(bside[0])]} if len(r.samples) < 4 else None)
+    r.counts["zips"] = n
     return r
